@@ -142,6 +142,29 @@ func §E() {
 	f := func(x int) int { return §double(x) }
 	tr.V(1, f(21))
 }`, "eta:stable"),
+		func() *e1.Program {
+			p := Raw("by-embed-directive-next-to-generator-literal", `
+//go:embed §data.txt
+var §blob string
+
+// §lit is a generator written as a function literal
+var §lit = func() ITER[int] GEN[int]{
+	YIELD(1)
+	RETNIL
+}GEN
+
+//go:noinline
+func §size() int { return len(§blob) }
+func §E() {
+	tr.V(1, §size())
+	tr.V(2, §blob)
+}
+`, "directive:embed")
+			p.Native = true
+			p.Imports = []string{"_embed"}
+			p.Files = map[string]string{"§data.txt": "hello embed\n"}
+			return p
+		}(),
 		by("by-const-init-methods", `
 const §K = 3
 
